@@ -43,7 +43,8 @@ Seqs(S, n) == UNION {[1..k -> S] : k \in 0..n}
 \* escapes around the surrogate ranges, in both bracket forms, alone, paired, mis-paired
 Hex(cs) == cs
 UnitSet == {<<68, 56, 48, 48>>, <<68, 66, 70, 70>>, <<100, 99, 48, 48>>, <<68, 70, 70, 70>>, <<48, 48, 52, 49>>,
-            <<68, 55, 70, 70>>, <<69, 48, 48, 48>>, <<48, 48, 48, 48>>, <<100, 56, 51, 100>>, <<100, 101, 48, 48>>}
+            <<68, 55, 70, 70>>, <<69, 48, 48, 48>>, <<48, 48, 48, 48>>, <<100, 56, 51, 100>>, <<100, 101, 48, 48>>,
+            <<100, 56, 52, 50>>, <<68, 70, 66, 55>>}      \* d842 DFB7: a plane-2 pair
 EscForm(u, br) == IF br THEN <<92, 117, 123>> \o u \o <<125>> ELSE <<92, 117>> \o u
 SurrogateTexts ==
   {Q \o EscForm(u, b) \o Q : u \in UnitSet, b \in BOOLEAN}
